@@ -2,6 +2,7 @@
 #![feature(generic_const_exprs)]
 #![allow(incomplete_features)]
 
+mod book;
 mod families;
 mod play;
 mod search;
@@ -19,6 +20,7 @@ fn main() {
     match argv[1].as_str() {
         "play" => play::run(&args),
         "families" => families::run(&args),
+        "book" => book::run(&args),
         "magic" => pure::magic(&args),
         "movevalue" => pure::movevalue(&args),
         "tt-seq" => tt::seq(&args),
